@@ -24,7 +24,9 @@ Exact reading (`Ops.rat`, scalars in `ℚ`) of the model `JF.Model.Periodic` of
 * §7 rounding-abstract reading (`RQ R`: `+`/`-` round with an arbitrary monotone idempotent rounding, `fmod` exact):
   for ALL inputs the closed bounds `0 ≤ y ≤ L`, `|r| ≤ L/2` hold, the position is the exact result rounded once,
   non-negative inputs are wrapped exactly, `[0, L)` is fixed point-wise; `y = L` needs a negative input and is mapped
-  to `0` by a second application.  A toy rounding shows that `y = L` is indeed reachable under these hypotheses.
+  to `0` by a second application.  A toy rounding shows that `y = L` is indeed reachable under these hypotheses;
+* §8 the proposed repair `r = x % L; return r if r < L else 0.0` (not the code under test): half-open range and
+  idempotence for ALL inputs in the rounding-abstract reading, unchanged exact reading.
 -/
 namespace JF.C15
 open JF JF.Periodic
@@ -88,6 +90,12 @@ theorem wrap_add_int_mul {x L : ℚ} (hL : 0 < L) (n : ℤ) : wrap Ops.rat (x + 
   have hr := wrap_range (x := x + n * L) hL
   obtain ⟨k, hk⟩ := wrap_congr (x := x + n * L) hL
   exact (wrap_unique hL hr.1 hr.2 ⟨k - n, by push_cast; linarith⟩)
+
+/-- the boundary inputs of the quantifier: exactly `0` stays, exactly `L` goes to `0` -/
+theorem wrap_zero {L : ℚ} (hL : 0 < L) : wrap Ops.rat 0 L = 0 := wrap_fixed hL le_rfl hL
+theorem wrap_self {L : ℚ} (hL : 0 < L) : wrap Ops.rat L L = 0 := by
+  have := wrap_add_int_mul (x := 0) hL 1
+  simpa [wrap_zero hL] using this
 
 /-- congruent inputs have the same image (the image is a function of the class modulo `L`) -/
 theorem wrap_congr_eq {x x' L : ℚ} (hL : 0 < L) (h : Congr L x x') : wrap Ops.rat x L = wrap Ops.rat x' L := by
@@ -493,6 +501,14 @@ theorem cuboid_init_replicate {o : Ops α} {d : ℤ} {L : α} {c : Cubic α} (h 
   rw [if_neg (by omega), if_neg (by simp; omega), if_neg (by simp [hL])]
   simp [Cubic.similar]
 
+/-- headline form: a cuboid box set up with `d` equal lengths `L` IS the state written by the cubic set-up, so by the
+`agree_*` theorems below every method of the two classes returns the same value (for every scalar type) -/
+theorem cuboid_of_equal_lengths {o : Ops α} {d : ℤ} {L : α} {c : Cubic α} {c' : Cuboid α}
+    (h : Cubic.init o d L = .ok c) (h' : Cuboid.init o d (List.replicate d.toNat L) = .ok c') :
+    c' = c.similar o := by
+  rw [cuboid_init_replicate h, Except.ok.injEq] at h'
+  exact h'.symm
+
 /-- the hypothesis `c.half = c.L / 2` of the statements below is what the set-up establishes -/
 theorem cubic_init_half {o : Ops α} {d : ℤ} {L : α} {c : Cubic α} (h : Cubic.init o d L = .ok c) :
     c.half = c.L / o.ofInt 2 ∧ c.dim = d.toNat ∧ c.L = L := by
@@ -629,18 +645,18 @@ variable (R : Rnd)
 
 /-- the corrected position is the exact one, rounded once -/
 theorem rq_wrap_eq (x L : RQ R) (h0 : R.Rep 0) (hm : R.Rep (Ops.rat.fmod x.val L.val)) :
-    (wrap (Ops.rq R) x L).val = R.rnd (wrap Ops.rat x.val L.val) := rq_pymod R x L h0 hm
+    (wrap (opsRq R) x L).val = R.rnd (wrap Ops.rat x.val L.val) := rq_pymod R x L h0 hm
 
 /-- … hence congruent to the input up to ONE rounding -/
 theorem rq_wrap_congr_one_rounding (x L : RQ R) (hL : 0 < L.val) (h0 : R.Rep 0)
     (hm : R.Rep (Ops.rat.fmod x.val L.val)) :
-    ∃ k : ℤ, (wrap (Ops.rq R) x L).val = R.rnd (x.val - k * L.val) :=
+    ∃ k : ℤ, (wrap (opsRq R) x L).val = R.rnd (x.val - k * L.val) :=
   ⟨⌊x.val / L.val⌋, by rw [rq_wrap_eq R x L h0 hm, wrap_eq hL]; ring_nf⟩
 
 /-- CLOSED bounds survive every monotone rounding: `0 ≤ y ≤ L` -/
 theorem rq_wrap_bounds (x L : RQ R) (hL : 0 < L.val) (h0 : R.Rep 0) (hLr : R.Rep L.val)
     (hm : R.Rep (Ops.rat.fmod x.val L.val)) :
-    0 ≤ (wrap (Ops.rq R) x L).val ∧ (wrap (Ops.rq R) x L).val ≤ L.val := by
+    0 ≤ (wrap (opsRq R) x L).val ∧ (wrap (opsRq R) x L).val ≤ L.val := by
   rw [rq_wrap_eq R x L h0 hm]
   have := wrap_range (x := x.val) hL
   constructor
@@ -650,27 +666,27 @@ theorem rq_wrap_bounds (x L : RQ R) (hL : 0 < L.val) (h0 : R.Rep 0) (hLr : R.Rep
 /-- a non-negative input is wrapped without any rounding: exactly congruent and inside `[0, L)` -/
 theorem rq_wrap_exact_of_nonneg (x L : RQ R) (hL : 0 < L.val) (hx : 0 ≤ x.val) (h0 : R.Rep 0)
     (hm : R.Rep (Ops.rat.fmod x.val L.val)) :
-    (wrap (Ops.rq R) x L).val = wrap Ops.rat x.val L.val := by
+    (wrap (opsRq R) x L).val = wrap Ops.rat x.val L.val := by
   rw [rq_wrap_eq R x L h0 hm, wrap_eq hL]
   rw [fmod_rat_nonneg (div_nonneg hx hL.le)] at hm
   exact hm
 
 /-- every representable number of `[0, L)` is a fixed point -/
 theorem rq_wrap_fixed (y L : RQ R) (hy0 : 0 ≤ y.val) (hy1 : y.val < L.val) (h0 : R.Rep 0) (hy : R.Rep y.val) :
-    (wrap (Ops.rq R) y L).val = y.val := by
+    (wrap (opsRq R) y L).val = y.val := by
   have hL : 0 < L.val := lt_of_le_of_lt hy0 hy1
   have hm : R.Rep (Ops.rat.fmod y.val L.val) := by rw [fmod_rat_fixed hy0 hy1]; exact hy
   rw [rq_wrap_exact_of_nonneg R y L hL hy0 h0 hm, wrap_fixed hL hy0 hy1]
 
 /-- `L` itself is mapped to `0` -/
-theorem rq_wrap_L (L : RQ R) (hL : 0 < L.val) (h0 : R.Rep 0) : (wrap (Ops.rq R) L L).val = 0 := by
+theorem rq_wrap_L (L : RQ R) (hL : 0 < L.val) (h0 : R.Rep 0) : (wrap (opsRq R) L L).val = 0 := by
   have hf : Ops.rat.fmod L.val L.val = 0 := by
     rw [fmod_rat_nonneg (by rw [div_self hL.ne']; norm_num), div_self hL.ne']; simp
   rw [rq_wrap_exact_of_nonneg R L L hL hL.le h0 (by rw [hf]; exact h0), wrap_eq hL, div_self hL.ne']; simp
 
 /-- the result is `L` only for a negative input -/
 theorem rq_wrap_eq_L_imp_neg (x L : RQ R) (hL : 0 < L.val) (h0 : R.Rep 0)
-    (hm : R.Rep (Ops.rat.fmod x.val L.val)) (h : (wrap (Ops.rq R) x L).val = L.val) : x.val < 0 := by
+    (hm : R.Rep (Ops.rat.fmod x.val L.val)) (h : (wrap (opsRq R) x L).val = L.val) : x.val < 0 := by
   by_contra hx
   rw [rq_wrap_exact_of_nonneg R x L hL (not_lt.mp hx) h0 hm] at h
   have := (wrap_range (x := x.val) hL).2
@@ -680,8 +696,8 @@ theorem rq_wrap_eq_L_imp_neg (x L : RQ R) (hL : 0 < L.val) (h0 : R.Rep 0)
 (so the correction is idempotent from the second application on) -/
 theorem rq_wrap_idem_or_L (x L : RQ R) (hL : 0 < L.val) (h0 : R.Rep 0) (hLr : R.Rep L.val)
     (hm : R.Rep (Ops.rat.fmod x.val L.val)) :
-    (wrap (Ops.rq R) (wrap (Ops.rq R) x L) L).val = (wrap (Ops.rq R) x L).val ∨
-    ((wrap (Ops.rq R) x L).val = L.val ∧ x.val < 0 ∧ (wrap (Ops.rq R) (wrap (Ops.rq R) x L) L).val = 0) := by
+    (wrap (opsRq R) (wrap (opsRq R) x L) L).val = (wrap (opsRq R) x L).val ∨
+    ((wrap (opsRq R) x L).val = L.val ∧ x.val < 0 ∧ (wrap (opsRq R) (wrap (opsRq R) x L) L).val = 0) := by
   have hb := rq_wrap_bounds R x L hL h0 hLr hm
   rcases lt_or_eq_of_le hb.2 with hlt | heq
   · left
@@ -689,8 +705,8 @@ theorem rq_wrap_idem_or_L (x L : RQ R) (hL : 0 < L.val) (h0 : R.Rep 0) (hLr : R.
     rw [rq_wrap_eq R x L h0 hm]; exact R.rep_rnd _
   · right
     refine ⟨heq, rq_wrap_eq_L_imp_neg R x L hL h0 hm heq, ?_⟩
-    have : wrap (Ops.rq R) x L = L := by
-      cases hw : wrap (Ops.rq R) x L with
+    have : wrap (opsRq R) x L = L := by
+      cases hw : wrap (opsRq R) x L with
       | mk v => cases L with | mk l => simp [hw] at heq; rw [heq]
     rw [this]; exact rq_wrap_L R L hL h0
 
@@ -698,16 +714,16 @@ theorem rq_wrap_idem_or_L (x L : RQ R) (hL : 0 < L.val) (h0 : R.Rep 0) (hLr : R.
 theorem rq_wrapSep_abs_le (s L h : RQ R) (hh : 0 < h.val) (hLh : L.val = 2 * h.val) (h0 : R.Rep 0)
     (hLr : R.Rep L.val) (hhr : R.Rep h.val) (hhn : R.Rep (-h.val))
     (hm : R.Rep (Ops.rat.fmod (s + h).val L.val)) :
-    |(wrapSep (Ops.rq R) s L h).val| ≤ h.val := by
+    |(wrapSep (opsRq R) s L h).val| ≤ h.val := by
   have hL : 0 < L.val := by linarith
   have hb := rq_wrap_bounds R (s + h) L hL h0 hLr hm
   unfold wrap at hb
   unfold wrapSep
   rw [RQ.sub_val, _root_.abs_le]
   constructor
-  · have := R.mono (show -h.val ≤ (pymod (Ops.rq R) (s + h) L).val - h.val by linarith [hb.1])
+  · have := R.mono (show -h.val ≤ (pymod (opsRq R) (s + h) L).val - h.val by linarith [hb.1])
     rwa [hhn] at this
-  · have := R.mono (show (pymod (Ops.rq R) (s + h) L).val - h.val ≤ h.val by linarith [hb.2])
+  · have := R.mono (show (pymod (opsRq R) (s + h) L).val - h.val ≤ h.val by linarith [hb.2])
     rwa [hhr] at this
 
 end rounding
@@ -739,7 +755,7 @@ def toyRnd : Rnd where
 /-- non-vacuity AND sharpness of the closed upper bound: with `toyRnd`, `x = -1/100`, `L = 1` all hypotheses of
 `rq_wrap_bounds` hold and the result is exactly `L` — the abstract counterpart of the binary64 counterexample of §6 -/
 example : toyRnd.Rep 0 ∧ toyRnd.Rep 1 ∧ toyRnd.Rep (Ops.rat.fmod (-1 / 100) 1) ∧
-    (wrap (Ops.rq toyRnd) ⟨-1 / 100⟩ ⟨1⟩).val = 1 := by
+    (wrap (opsRq toyRnd) ⟨-1 / 100⟩ ⟨1⟩).val = 1 := by
   have hf : Ops.rat.fmod (-1 / 100) 1 = -1 / 100 := by
     rw [fmod_rat_neg (by norm_num)]
     have : ⌈(-1 / 100 : ℚ) / 1⌉ = 0 := by rw [Int.ceil_eq_iff]; norm_num
@@ -765,5 +781,73 @@ example : toyRnd.Rep 0 ∧ toyRnd.Rep 2 ∧ toyRnd.Rep 1 ∧ toyRnd.Rep (-1) ∧
   refine ⟨by simp [Rnd.Rep, toyRnd], by norm_num [Rnd.Rep, toyRnd], by norm_num [Rnd.Rep, toyRnd],
     by norm_num [Rnd.Rep, toyRnd], ?_⟩
   rw [e, hf]; norm_num [Rnd.Rep, toyRnd]
+
+/-! ## 8. the proposed repair (NOT the code under test; backs the fix suggested with the known finding)
+
+`r = x % L; return r if r < L else 0.0` -/
+
+section repair
+variable {α : Type} [Add α] [LT α] [DecidableLT α] [BEq α]
+
+/-- the repaired `correct_position_entry` -/
+def wrapFix (o : Ops α) (x L : α) : α :=
+  let r := wrap o x L
+  if r < L then r else o.ofInt 0
+
+theorem wrapFix_of_lt (o : Ops α) (x L : α) (h : wrap o x L < L) : wrapFix o x L = wrap o x L := by
+  simp [wrapFix, h]
+end repair
+
+/-- in the exact reading the extra branch is dead: nothing changes -/
+theorem wrapFix_rat {x L : ℚ} (hL : 0 < L) : wrapFix Ops.rat x L = wrap Ops.rat x L := by
+  simp [wrapFix, (wrap_range (x := x) hL).2]
+
+/-- in every monotone rounding the repaired function maps into the HALF-OPEN interval `[0, L)` … -/
+theorem rq_wrapFix_range (R : Rnd) (x L : RQ R) (hL : 0 < L.val) (h0 : R.Rep 0) (hLr : R.Rep L.val)
+    (hm : R.Rep (Ops.rat.fmod x.val L.val)) :
+    0 ≤ (wrapFix (opsRq R) x L).val ∧ (wrapFix (opsRq R) x L).val < L.val := by
+  have hb := rq_wrap_bounds R x L hL h0 hLr hm
+  unfold wrapFix
+  by_cases h : wrap (opsRq R) x L < L
+  · simp only [h, if_true]; exact ⟨hb.1, h⟩
+  · simp only [h, if_false]; simpa [opsRq] using hL
+
+/-- … its result is representable … -/
+theorem rq_wrapFix_rep (R : Rnd) (x L : RQ R) (h0 : R.Rep 0) (hm : R.Rep (Ops.rat.fmod x.val L.val)) :
+    R.Rep (wrapFix (opsRq R) x L).val := by
+  unfold wrapFix
+  by_cases h : wrap (opsRq R) x L < L
+  · simp only [h, if_true]; rw [rq_wrap_eq R x L h0 hm]; exact R.rep_rnd _
+  · simp only [h, if_false]; simpa [opsRq] using h0
+
+/-- … and it is idempotent, for ALL inputs -/
+theorem rq_wrapFix_idem (R : Rnd) (x L : RQ R) (hL : 0 < L.val) (h0 : R.Rep 0) (hLr : R.Rep L.val)
+    (hm : R.Rep (Ops.rat.fmod x.val L.val)) :
+    (wrapFix (opsRq R) (wrapFix (opsRq R) x L) L).val = (wrapFix (opsRq R) x L).val := by
+  have hr := rq_wrapFix_range R x L hL h0 hLr hm
+  have hrep := rq_wrapFix_rep R x L h0 hm
+  have hfix := rq_wrap_fixed R (wrapFix (opsRq R) x L) L hr.1 hr.2 h0 hrep
+  have hlt : wrap (opsRq R) (wrapFix (opsRq R) x L) L < L := by
+    rw [RQ.lt_iff, hfix]; exact hr.2
+  rw [wrapFix_of_lt _ _ _ hlt]
+  exact hfix
+
+/-- … and still congruent to the input up to one rounding: it is the rounded exact result, or `0` when that is `L` -/
+theorem rq_wrapFix_cases (R : Rnd) (x L : RQ R) (h0 : R.Rep 0) (hm : R.Rep (Ops.rat.fmod x.val L.val)) :
+    (wrapFix (opsRq R) x L).val = R.rnd (wrap Ops.rat x.val L.val) ∨
+    (R.rnd (wrap Ops.rat x.val L.val) ≥ L.val ∧ (wrapFix (opsRq R) x L).val = 0) := by
+  unfold wrapFix
+  by_cases h : wrap (opsRq R) x L < L
+  · left; simp only [h, if_true]; exact rq_wrap_eq R x L h0 hm
+  · right
+    simp only [h, if_false]
+    rw [RQ.lt_iff, rq_wrap_eq R x L h0 hm] at h
+    exact ⟨not_lt.mp h, by simp [opsRq]⟩
+
+/-- binary64, kernel-evaluated: on the witness of the finding the repaired function returns `0.0` and is idempotent -/
+theorem float_wrapFix_witness :
+    (wrapFix Ops.floatK xTiny 1.0).toBits = (0.0 : Float).toBits ∧
+    (wrapFix Ops.floatK (wrapFix Ops.floatK xTiny 1.0) 1.0).toBits = (wrapFix Ops.floatK xTiny 1.0).toBits := by
+  decide +kernel
 
 end JF.C15
